@@ -14,7 +14,7 @@ import (
 func init() {
 	register("C09", &ruleSet{
 		run:    runC09,
-		floors: map[string]int{"O1": 2, "O2": 2, "O3": 2, "O4": 3, "O5": 5},
+		floors: map[string]int{"O1": 2, "O2": 2, "O3": 2, "O4": 3, "O5": 7},
 		explain: "Decides the window protocol structurally: (O1) at each call of the delegate algorithm's OnSample from a windowing component the RTT argument is the " +
 			"window's candidate (default limiter) / average (windowed limit) RTT, the in-flight argument its MaxInFlight and the drop argument its DidDrop, all of one " +
 			"snapshot that is the window being replaced; (O2) on every path that calls the delegate the window field is re-assigned an empty window and the " +
